@@ -189,7 +189,7 @@ func runC01(c *Ctx, phase string) {
 		"up to n leaves, rendered fully parenthesised and minimally parenthesised; random: k<=7 distinct terms of every kind, 6 shape classes, depth<=24, DNF bounded) x every non-empty subset "+
 		"of the tree's terms as allowed list (complete truth table) plus lists with unrelated/duplicate/re-spelled/related extras; a case is distinct by (expression text, allowed list) and "+
 		"non-trivial when the tree has an operator and >=2 distinct terms",
-		false, fmt.Sprintf("exhaustive n<=%d leaves; random trees %d; k<=7; DNF<=%d", c.Pick(4, 5), c.Pick(3000, 60000), c.Pick(512, 4096)),
+		false, fmt.Sprintf("exhaustive n<=%d leaves; random trees %d; k<=7; DNF<=%d", c.Pick(4, 5), c.Pick(8000, 60000), c.Pick(512, 4096)),
 		"leaf truth tau is observed through single-term calls Satisfies(t,[b]) of the same library (C02 judges those against an independent reference)",
 		"same-operator chains are printed flat: associativity does not change the Boolean function")
 	c.Floor("expected_true", 1000)
@@ -245,7 +245,7 @@ func runC01(c *Ctx, phase string) {
 		}
 	}
 	// (ii) random trees
-	nRandom := c.Pick(3000, 60000)
+	nRandom := c.Pick(8000, 60000)
 	for i := 0; i < nRandom; i++ {
 		if !c.Mine(i) {
 			continue
